@@ -779,7 +779,20 @@ pub fn build_case(bytes: &[u8]) -> BuiltCase {
 
     // construction
     let mut module = Module::default();
-    let locals: Vec<LocalId> = local_types.iter().map(|t| module.locals.add(*t)).collect();
+    // the module-wide local arena is filled in a generated order: a
+    // parameter need not be older than the other locals of its function
+    let mut alloc_order: Vec<usize> = (0..local_types.len()).collect();
+    if ch.bool() {
+        for i in (1..alloc_order.len()).rev() {
+            let j = ch.below(i + 1);
+            alloc_order.swap(i, j);
+        }
+    }
+    let mut locals: Vec<Option<LocalId>> = vec![None; local_types.len()];
+    for k in alloc_order {
+        locals[k] = Some(module.locals.add(local_types[k]));
+    }
+    let locals: Vec<LocalId> = locals.into_iter().map(|l| l.unwrap()).collect();
     let args: Vec<LocalId> = locals[..n_params].to_vec();
     let mut fb = FunctionBuilder::new(&mut module.types, &param_tys, &vec![ValType::I32; n_results]);
     let entry = fb.func_body_id();
